@@ -37,6 +37,7 @@ ALLOWED_WRITERS = {
     'stash': {'bitstr_ext::open_bitstr', 'bitstr_ext::word_close_bitstr'},
 }
 MOVE = 'bitstr_ext::move_offset_checked'
+CURRENT_INPUT = 'bitstr_ext::current_input'      # named in full: stays opaque in views
 COMMIT = 'bitstr_ext::commit_read'
 PEEKS = {'bitstr_ext::peek_bits', 'bitstr_ext::nulbytestr_peek'}
 MOVE_CALLERS = {COMMIT: 'the single commit point of every read', 'bitstr_ext::word_seek': 'seek: user position, bounded by R2'}
@@ -85,38 +86,29 @@ def run(rep, facts, tier):
     rep.floor('C06.R1 cursor write sites', n, 7)
 
     # ---------- R2
-    mf = fx.need(MOVE)
+    fx.need(MOVE)
+    mf = V(MOVE)       # helpers looked through, `let inside = a && b; if !inside {..}` threaded into the nested tests it stands for
     sets = [(bb, t) for bb, t in mf.calls() if callee_of(t) in WRITERS and cell_of(mf, t['args'][1]) == 'offset']
     rep.floor('C06.R2 offset write in move_offset_checked', len(sets), 1)
-    dom = mf.dominators()
+    from .c08 import guard_facts
     for bb, t in sets:
         lower = upper = False
-        for b2 in mf.reachable_blocks():
-            br = bool_branch(mf, b2)
-            if br is None:
+        for (op, a, b) in guard_facts(mf, bb):
+            if op not in ('Le', 'Ge', 'Lt', 'Gt'):
                 continue
-            e, tbb, fbb = br
-            c = cmp_of(e)
-            if c is None or tbb not in dom.get(bb, ()):
-                continue
-            op, a, b, neg = c
-            sa, sb = expr_str(a), expr_str(b)
-            if neg:
-                continue
-            src_ok = 'current_input' in sa + sb
-            if op == 'Le' and 'Bitstr::start' in sa and 'arg2' in sb and src_ok:
-                lower = True
-            if op == 'Ge' and 'Bitstr::start' in sb and 'arg2' in sa and src_ok:
-                lower = True
-            if op == 'Le' and 'arg2' in sa and 'Bitstr::end' in sb and src_ok:
-                upper = True
-            if op == 'Ge' and 'arg2' in sb and 'Bitstr::end' in sa and src_ok:
-                upper = True
+            if op in ('Ge', 'Gt'):
+                op, a, b = {'Ge': 'Le', 'Gt': 'Lt'}[op], b, a
+            sa, sb = expr_str(zstrip(a), -20), expr_str(zstrip(b), -20)
+            src_ok = CURRENT_INPUT in expr_str(zstrip(a), -40) + expr_str(zstrip(b), -40)
+            if op == 'Le' and 'Bitstr::start' in sa and 'arg2' in sb and 'Bitstr' not in sb and src_ok:
+                lower = True          # input.start() <= pos
+            if op == 'Le' and 'arg2' in sa and 'Bitstr' not in sa and 'Bitstr::end' in sb and src_ok:
+                upper = True          # pos <= input.end()
         # value written is the checked position
         val = expr_str(mf.expr_of_operand(t['args'][2]))
         same = 'arg2' in val
         rep.add('C06.R2', 'C06.R2:move_offset_checked:bounded', lower and upper and same,
-                'set_var(offset, pos) is control-dependent on input.start() <= pos and pos <= input.end(), and writes that pos'
+                'set_var(offset, pos) runs only if input.start() <= pos and pos <= input.end(), and writes that pos'
                 if lower and upper and same else
                 'offset write not bounded by the current input (lower=%s upper=%s writes-checked-pos=%s)' % (lower, upper, same),
                 MOVE, t.get('at'))
